@@ -110,9 +110,12 @@ impl SharedCache {
     /// If the mutex has been poisoned.
     pub fn insert_all(&self, records: &[ResourceRecord]) {
         let mut cache = self.cache.lock().expect(MUTEX_POISON_MESSAGE);
+        // one insertion time for all: the records of an RRset have one TTL,
+        // and so expire (and stop being returned) together
+        let now = Instant::now();
         for record in records {
             if record.ttl > 0 {
-                cache.insert(record);
+                cache.insert_at(record, now);
             }
         }
     }
@@ -213,11 +216,17 @@ impl Cache {
 
     /// Insert an RR into the cache.
     pub fn insert(&mut self, record: &ResourceRecord) {
-        self.inner.upsert(
+        self.insert_at(record, Instant::now());
+    }
+
+    /// Insert an RR into the cache, its lifetime starting at the given time.
+    fn insert_at(&mut self, record: &ResourceRecord, now: Instant) {
+        self.inner.upsert_at(
             record.name.clone(),
             record.rtype_with_data.rtype(),
             record.rtype_with_data.clone(),
             Duration::from_secs(record.ttl.into()),
+            now,
         );
     }
 
@@ -374,7 +383,18 @@ impl<K1: Clone + Eq + Hash, K2: Copy + Eq + Hash, V: PartialEq> PartitionedCache
     /// Insert a record into the cache, or reset the expiry time if already
     /// present.
     pub fn upsert(&mut self, partition_key: K1, record_key: K2, value: V, ttl: Duration) {
-        let now = Instant::now();
+        self.upsert_at(partition_key, record_key, value, ttl, Instant::now());
+    }
+
+    /// Like `upsert`, with the time of insertion given by the caller.
+    pub fn upsert_at(
+        &mut self,
+        partition_key: K1,
+        record_key: K2,
+        value: V,
+        ttl: Duration,
+        now: Instant,
+    ) {
         let expiry = now + ttl;
         let tuple = (value, expiry);
         if let Some(partition) = self.partitions.get_mut(&partition_key) {
